@@ -26,6 +26,7 @@ from simkit.world import SimIOError, StepBudgetExceeded, StreamPlan, World
 PROP = "C02"
 LEVEL = "fault_enumeration"
 TIERS = {"quick": 6000, "thorough": 200000}
+LOCALE_VARIES = True  # three of the sixteen shards run in a non-UTF-8 locale (simkit/runner.py: hashseed_for)
 RULE = (
     "one run = one SWC text assembled token by token from the line grammar (random tree, "
     "whitespace/sign/decimal/exponent spellings, comments, blank lines, CRLF, extra fields), "
@@ -341,7 +342,8 @@ def generate(rng: Prng, tier: str) -> dict:
             step["opts"].pop("extra_cols", None)
             if wide_ids:
                 step["opts"]["reset_index"] = True
-            step["pop"] = {"k": ps.below(3), "via": ps.choice(["index", "neg", "slice", "slice", "iter"])}
+            step["pop"] = {"k": ps.below(3), "via": ps.choice(["index", "neg", "slice", "slice", "iter"]),
+                           "detect": ps.chance(0.3)}
     return {"prop": PROP, "encoding": encoding, "lines": lines, "applied": applied, "align": align,
             "byte_faults": byte_faults, "steps": steps, "config": "faulting" if faulting else "fault_free"}
 
@@ -569,10 +571,41 @@ def execute(program: dict) -> dict:
                 world.read_plans["a/file.swc"] = plan
                 src = world.path("a/file.swc") if (si + len(data)) % 3 else pathlib.Path(world.path("a/file.swc"))
             elif source == "population":
-                for name in ("p/a.swc", "p/sub/b.swc", "p/c.swc", "p/sub/deep/d.swc"):
-                    world.put(name, data)
-                    world.read_plans[name] = plan
                 src = None
+                detect_files = None
+                if step["pop"].get("detect") and verdict["verdict"] == MUST_ACCEPT and eio is None:
+                    try:
+                        body = data.decode(enc)
+                    except UnicodeDecodeError:
+                        body = None
+                    if body is not None:
+                        # encoding="detect": the same data rows stored in four files of DIFFERENT encodings, each with a
+                        # header that makes its encoding unmistakable (pure ASCII; long CJK + Cyrillic text in UTF-8;
+                        # UTF-16 with byte-order mark) - every file has to be decoded by what IT is
+                        rows_only = "".join(l for l in body.splitlines(keepends=True)
+                                            if swc_text.classify_line(l.rstrip("\r\n"), 0)[0] != "comment")
+                        heads = {"ascii": "# plain ascii header, nothing else\n",
+                                 "utf-8": "# 神经元 形态 重建 数据 µm née Zürich 神经元 形态 重建 数据\n# ещё один комментарий на русском языке\n",
+                                 "utf-16": "# 神经元 形态 重建 (utf-16 with byte-order mark)\n"}
+                        detect_files = {}
+                        for name, e in (("p/a.swc", "ascii"), ("p/sub/b.swc", "utf-8"), ("p/c.swc", "utf-16"),
+                                        ("p/sub/deep/d.swc", "ascii")):
+                            try:
+                                blob = (heads[e] + rows_only).encode(e)
+                            except UnicodeEncodeError:
+                                detect_files = None
+                                break
+                            detect_files[name] = (blob, e)
+                if detect_files:
+                    for name, (blob, e) in detect_files.items():
+                        world.put(name, blob)
+                        world.read_plans[name] = plan
+                    kwargs["encoding"] = "detect"
+                    world.probe("c02.population_with_detected_encodings")
+                else:
+                    for name in ("p/a.swc", "p/sub/b.swc", "p/c.swc", "p/sub/deep/d.swc"):
+                        world.put(name, data)
+                        world.read_plans[name] = plan
                 world.probe("c02.read_through_population")
             elif source == "bytes":
                 src = world.bytes_source(data, plan)
@@ -586,6 +619,11 @@ def execute(program: dict) -> dict:
             try:
                 if source == "population":
                     res = read_through_population(world.path("p"), kwargs, step["pop"])
+                    if detect_files:
+                        # judged against the file that was actually handed out
+                        rel = world.rel(res.source)
+                        blob, e = detect_files[rel]
+                        verdict = swc_text.analyse(blob, e, 0)
                 elif step["api"] == "read_swc":
                     res = read_swc(src, **kwargs)
                 else:
